@@ -410,6 +410,7 @@ func proveLemmas(th *Theory, timeout time.Duration) []solveResult {
 func unfoldRec(ts []*Term) []*Term {
 	seen := map[*Term]bool{}
 	var reps, tsers []*Term
+	drops := map[*Term][]*Term{}
 	var walk func(t *Term)
 	walk = func(t *Term) {
 		if seen[t] {
@@ -421,6 +422,9 @@ func unfoldRec(ts []*Term) []*Term {
 		}
 		if t.Op == "app" && t.Name == "tser" {
 			tsers = append(tsers, t)
+		}
+		if t.Op == "app" && t.Name == "drop" && !hasBound(t) {
+			drops[t.Args[0]] = append(drops[t.Args[0]], t)
 		}
 		for _, a := range t.Args {
 			walk(a)
@@ -451,6 +455,22 @@ func unfoldRec(ts []*Term) []*Term {
 		out = append(out, Implies(Lt(lo, hi), Eq(rr, Cat(first, App("rep", SBytes, D, w, Add(lo, IntLit(1)), hi)))))
 		out = append(out, Implies(Lt(lo, hi), Eq(rr, App("cat", SBytes, App("rep", SBytes, D, w, lo, Sub(hi, IntLit(1))), last))))
 		out = append(out, Eq(App("len", SInt, rr), Mul(w, Max(Sub(hi, lo), IntLit(0)))))
+	}
+	// drop composes: for two suffixes of the same sequence, the later one is a suffix of the earlier one
+	// (instances of T0's drop_drop axiom, supplied here because E-matching cannot see through the index arithmetic)
+	for _, ds := range drops {
+		if len(ds) < 2 || len(ds) > 8 {
+			continue
+		}
+		for _, d1 := range ds {
+			for _, d2 := range ds {
+				if d1 == d2 {
+					continue
+				}
+				a, c := d1.Args[1], d2.Args[1]
+				out = append(out, Implies(And(Le(IntLit(0), a), Le(a, c)), Eq(d2, App("drop", SBytes, d1, Sub(c, a)))))
+			}
+		}
 	}
 	// tser(T, L, V, ord, lo, hi): serialisation of the map entries ord[lo..hi) as tag/length/value triplets
 	tvals := map[*Term]bool{}
